@@ -26,6 +26,12 @@ def gen_cases(rnd, n):
             shape = rnd.choice(['select', 'select', 'order', 'distinct', 'agg', 'join', 'join', 'update', 'except', 'unnest', 'top'])
             pool = rnd.sample(['x', 'y', 'z', 'x;y', '10', '9', 'New', 'New York', 'a b'], rnd.randint(2, 4))
             A = qgen.gen_table(rnd, nrows=rnd.randint(0, 6), ncols=ncols, pool=pool, ragged=0.0, none_p=0.0, full_cols=ncols)
+            if shape != 'agg' and rnd.random() < 0.2:
+                # ragged by extension: some records carry extra trailing fields (star items and NF then differ from record to record,
+                # while every field reference stays inside the shortest record)
+                for r in A:
+                    if rnd.random() < 0.4:
+                        r.extend(rnd.choice(pool) for _x in range(rnd.randint(1, 2)))
             B = None
             q = {'items': []}
             use_join = shape == 'join' or (shape in ('order', 'update', 'agg') and rnd.random() < 0.25)
@@ -112,14 +118,16 @@ def uses_risky_b(c):
 def in_class(c):
     """the class of cases on which Python and JS expressions mean the same (also used to keep shrinking inside it)"""
     A = c['A']
-    if any(x is None for r in A for x in r) or len(set(len(r) for r in A)) > 1:
+    if any(x is None for r in A for x in r):
         return False
+    # ragged tables are in the class as long as every field reference stays inside the SHORTEST record (star items, NF, UNNEST
+    # and EXCEPT need no such restriction: they mean the same in both languages)
     if c['B'] is not None and any(x is None for r in c['B'] for x in r):
         return False
     if uses_risky_b(c):
         return False
     # field references inside the width of the (rectangular) input table
-    w = len(A[0]) if A else 0
+    w = min(len(r) for r in A) if A else 0
     txt = json.dumps(c['q'])
     import re
     if A and any(int(m) >= w for m in re.findall(r'\["a", (\d+)\]', txt)):
